@@ -940,6 +940,11 @@ class Exec(Engine):
                     if lam is not None:
                         ex.assume(self.truth(self.eval_clause_lambda(
                             lam, [msg], ex), ex))
+                    else:
+                        # nothing is promised about the exception's
+                        # arguments: it may have none (raise E())
+                        results.append((ex.fork(), Raise(VExc(exc, (),
+                                                              line))))
                     results.append((ex, Raise(VExc(exc, (msg,), line))))
         finally:
             self.frames.pop()
